@@ -165,11 +165,10 @@ def name_cases(ck, quick):
     pool = RUST_KEYWORDS + methods + ["dispatch_dsp", "dispatch_helper"] + HARMLESS_NAMES
     out = []
     for i, nm in enumerate(pool):
-        if i % 2 == 0 or not quick:
-            src = "fn %s(x){\n  self + x\n}\nfn dsp(){\n  %s(2.0)\n}\n" % (nm, nm)
-        else:
-            src = "fn helper(y){\n  y * 2.0\n}\nfn %s(x){\n  mem(x) + helper(x)\n}\nfn dsp(){\n  %s(now)\n}\n" % (nm, nm)
-        out.append(mk_case("names", "fn-name:" + nm, src, 4))
+        a = "fn %s(x){\n  self + x\n}\nfn dsp(){\n  %s(2.0)\n}\n" % (nm, nm)
+        b = "fn helper(y){\n  y * 2.0\n}\nfn %s(x){\n  mem(x) + helper(x)\n}\nfn dsp(){\n  %s(now)\n}\n" % (nm, nm)
+        for src in ([a if i % 2 == 0 else b] if quick else [a, b]):
+            out.append(mk_case("names", "fn-name:" + nm, src, 4))
     return out
 
 
@@ -1083,13 +1082,20 @@ def prim_sequences(rng, count):
 def template_prims_test(ck, n_seq, extra=()):
     """returns (n_run, list of failures (what, replay_obj)), None when a side cannot be built"""
     rc, out, _ = coq_make(["theories/Extract/RustRtExtract.vo"])
+    prev = os.path.join(CACHE, "ocaml", "rustrt_drv", "rustrt_drv")
     if rc != 0:
         ck.broken.append("extraction RustRtExtract: " + first_coq_error(out)[:300])
-        return None
-    rc, out, mexe = ocaml_build("rustrt_drv", ["rustrt_model"], os.path.join(VERIF, "ocaml", "rustrt_drv.ml"))
-    if rc != 0:
-        ck.broken.append("ocaml rustrt_drv: " + out[-300:])
-        return None
+        if not os.path.exists(prev):
+            return None
+        # the table is poisoned (the template's primitives changed): keep testing the real template against the model extracted
+        # from the last transcription that checked, so that a concrete failing primitive sequence is reported
+        mexe = prev
+        ck.coverage["template_prims_model"] = "previously extracted model (current Coq build broken)"
+    else:
+        rc, out, mexe = ocaml_build("rustrt_drv", ["rustrt_model"], os.path.join(VERIF, "ocaml", "rustrt_drv.ml"))
+        if rc != 0:
+            ck.broken.append("ocaml rustrt_drv: " + out[-300:])
+            return None
     texe, err = build_prims_driver()
     if texe is None:
         ck.broken.append(err)
